@@ -114,8 +114,117 @@ class PassThroughSSL:
         return None
 
 
-def senders(target: str, n: int, per: int, K: int, max_susp: int = 1, with_receiver: bool = False, prefix: list = ()):
-    """target: client | serverapi | tls"""
+class GenericLockBackend(MemBackend):
+    """same in-memory backend, but fair locks are the backend-independent FairLock (_common/fair_lock.py) - what
+    AsyncBackend.create_fair_lock() returns by default and what every backend other than asyncio uses."""
+
+    def create_fair_lock(self):
+        from easynetwork.lowlevel.api_async.backend._common.fair_lock import FairLock
+
+        return FairLock(self)
+
+
+def fairlock(n: int, K: int, prefix: list = ()):
+    """The generic FairLock alone: n tasks do `async with lock:` and hold it for 4 loop iterations; the solver chooses the schedule
+    (loop iteration / start the next task / cancel task j, waiting or holding).  Asserted: never two holders at once, tasks enter
+    in the order in which they started waiting (cancelled ones skipped), every task that was not cancelled gets the lock and
+    finishes (nobody stranded), release() never fails, the lock ends unlocked."""
+    from easynetwork.lowlevel.api_async.backend._common.fair_lock import FairLock
+
+    def scenario(S):
+        with loop_context() as loop:
+            be = MemBackend(lambda: None)
+            lock = FairLock(be)
+            st = {"inside": 0, "max_inside": 0, "entered": [], "asked": []}
+            info = []
+
+            async def worker(i):
+                rec = info[i]
+                try:
+                    st["asked"].append(i)
+                    async with lock:
+                        st["inside"] += 1
+                        st["max_inside"] = max(st["max_inside"], st["inside"])
+                        st["entered"].append(i)
+                        try:
+                            for _ in range(4):
+                                await be.coro_yield()
+                        finally:
+                            st["inside"] -= 1
+                    rec["state"] = "returned"
+                except BaseException as e:  # noqa: BLE001
+                    rec["state"] = "cancelled" if type(e).__name__ == "CancelledError" else "raised:" + type(e).__name__ + ":" + str(e)
+                    if rec["state"] == "cancelled":
+                        raise
+
+            def start():
+                if len(info) < n:
+                    rec = {"state": "running"}
+                    info.append(rec)
+                    rec["task"] = loop.create_task(worker(len(info) - 1))
+
+            start()
+            cancels = 0
+            for i in range(K):
+                c = prefix[i] if i < len(prefix) else S.choice(3, f"ev{i}")
+                if c == 0:
+                    loop.step()
+                elif c == 1:
+                    start()
+                else:
+                    if cancels < 2 and info:
+                        j = S.choice(len(info), f"who{i}")
+                        t = info[j]["task"]
+                        if not t.done():
+                            cancels += 1
+                            info[j]["cancel_requested"] = True
+                            t.cancel()
+                        else:
+                            loop.step()
+                    else:
+                        loop.step()
+            while len(info) < n:
+                start()
+            finished = False
+            for _ in range(8 * n + 20):
+                loop.step()
+                if all(r["task"].done() for r in info):
+                    finished = True
+                    break
+            ok = finished and st["max_inside"] <= 1 and not lock.locked()
+            problems = []
+            if not finished:
+                problems.append("a task never got the lock (stranded)")
+            if st["max_inside"] > 1:
+                problems.append("two holders at once")
+            if lock.locked():
+                problems.append("lock left locked")
+            for i, rec in enumerate(info):
+                if rec["task"].done() and not rec.get("cancel_requested") and rec["state"] != "returned":
+                    ok = False
+                    problems.append(f"task {i}: {rec['state']}")
+                if rec.get("cancel_requested") and rec["state"] not in ("cancelled", "returned", "running"):
+                    ok = False
+                    problems.append(f"cancelled task {i}: {rec['state']}")
+            order = [i for i in st["asked"] if i in st["entered"]]
+            if order != st["entered"]:
+                ok = False
+                problems.append(f"not first-come-first-served: asked {st['asked']} entered {st['entered']}")
+            if loop.exceptions:
+                ok = False
+                problems.append("loop exception")
+            tags = []
+            if cancels:
+                tags.append("cancel-waiter")
+            if len(st["entered"]) >= 2:
+                tags.append("overlap")
+            return Outcome(ok=ok, skeleton=([r["state"] for r in info], st["entered"]), tags=tuple(tags), detail={"problems": problems, "asked": st["asked"], "entered": st["entered"], "states": [r["state"] for r in info]})
+
+    return scenario
+
+
+def senders(target: str, n: int, per: int, K: int, max_susp: int = 1, with_receiver: bool = False, prefix: list = (), lock: str = "native"):
+    """target: client | serverapi | tls ; lock: native (asyncio.Lock, what AsyncIOBackend.create_fair_lock returns) | generic (FairLock)"""
 
     def scenario(S):
         with loop_context() as loop:
@@ -134,7 +243,7 @@ def senders(target: str, n: int, per: int, K: int, max_susp: int = 1, with_recei
                 holder["tr"] = tr
                 return tr
 
-            be = MemBackend(make_transport)
+            be = (GenericLockBackend if lock == "generic" else MemBackend)(make_transport)
             if target == "client":
                 obj = atcp.AsyncTCPNetworkClient(("host", 1), StreamProtocol(ChunkSerializer()), be)
                 send = obj.send_packet
@@ -302,6 +411,12 @@ def shards(tier: str):
         for n, per in ((2, 2), (3, 1)) if quick else ((2, 2), (3, 1), (3, 2)):
             for pre in range(3):
                 out.append({"name": f"senders/{target}/n{n}x{per}/K{Kt}/pre{pre}", "scenario": "props.c12:senders", "params": dict(target=target, n=n, per=per, K=Kt, prefix=[pre]), "budget": B, "cost": 3**Kt * n * per, "per_path_timeout": 30})
+    # the backend-independent FairLock: alone, and under the three senders
+    for pre in range(3):
+        out.append({"name": f"fairlock/n4/K{K + 1}/pre{pre}", "scenario": "props.c12:fairlock", "params": dict(n=4, K=K + 1, prefix=[pre]), "budget": B, "cost": 3**K, "per_path_timeout": 30})
+    for target in ("client", "serverapi", "tls"):
+        for pre in range(3):
+            out.append({"name": f"senders-genericlock/{target}/n3x1/K{K}/pre{pre}", "scenario": "props.c12:senders", "params": dict(target=target, n=3, per=1, K=K, prefix=[pre], lock="generic"), "budget": B, "cost": 3**K * 3, "per_path_timeout": 30})
     import itertools
 
     for pre in itertools.product(range(4), repeat=2):
